@@ -82,9 +82,59 @@ def symbolise_ceres(node, name):
   return symbolise(node)
 
 
+def concurrent_paths(ctx, database, settings, root):
+  """The writer thread and the reactor thread (management get/setMetadata) ask for paths concurrently:
+  every answer must be the one a single-threaded call gives (the mapping is a function of the name)."""
+  from . import sched
+  import carbon.util as util
+  files = {database.__file__.replace('.pyc', '.py'), util.__file__.replace('.pyc', '.py')}
+  plans = [
+    (['zz.old'], [('A', ['a.b.c']), ('B', ['a.b.c'])]),
+    (['zz.old;t=1'], [('A', ['m;x=1', 'n.o']), ('B', ['n.o', 'm;x=1'])]),
+    ([], [('A', ['p.q', 'r;k=v', 'p.q']), ('B', ['r;k=v', 'p.q', 's..t'])]),
+  ]
+  nruns = 0
+  for hash_only in (False, True):
+    settings['TAG_HASH_FILENAMES'] = hash_only
+    ref = database.WhisperDatabase(settings)
+    for pre, threads in plans:
+      expect = {}
+      for _, names in threads:
+        for n in names:
+          expect[n] = database.WhisperDatabase(settings).getFilesystemPath(n)
+
+      def run_once(chooser):
+        wdb = database.WhisperDatabase(settings)
+        for n in pre:
+          wdb.getFilesystemPath(n)
+        got = []
+        sc = sched.Scheduler(files=files, max_steps=20000)
+        for tname, names in threads:
+          def body(tname=tname, names=names):
+            for n in names:
+              got.append((tname, n, wdb.getFilesystemPath(n)))
+          sc.spawn(tname, body)
+        log = sc.run(chooser)
+        for t in sc.threads:
+          if t.exc is not None:
+            got.append((t.name, '<exception>', repr(t.exc)))
+        run_once.got = got
+        return log
+      for forced, log in sched.explore_bounded(run_once, 2, limit=ctx.pick(150, 1500), rng=ctx.rng):
+        nruns += 1
+        for tname, n, path in run_once.got:
+          if expect.get(n) != path:
+            ctx.violation('getFilesystemPath(%r) returned %r to thread %s while another thread was inside the path functions; '
+                          'single-threaded it returns %r: the name-to-file mapping is not a function of the name' % (n, path, tname, expect.get(n)),
+                          dict(threads=threads, earlier_calls=pre, forced=sorted(forced.items()), tag_hash_filenames=hash_only),
+                          signature='nondeterministic')
+  ctx.evaluations += nruns
+  ctx.cov['concurrent_path_schedules'] = nruns
+
+
 def run(ctx):
   ctx.rule = ('every name up to length 4 (quick) / 5 (thorough) over 9 symbols plus random names up to length 60 over the '
-              'same classes and arbitrary NUL-free unicode, both TAG_HASH_FILENAMES values; non-trivial = name containing a '
+              'same classes and arbitrary NUL-free unicode, both TAG_HASH_FILENAMES values; plus two threads asking for paths concurrently (all schedules with <= 2 pre-emptions at line granularity over database.py/util.py); non-trivial = name containing a '
               'separator, a dot or a semicolon')
   ctx.assumptions += ['whisper and ceres are stubbed (not installed): only carbon\'s own path functions and plugin glue run',
                       'the sha256 prefix of tagged names is checked by the harness (value oracle), abstract in the spec']
@@ -177,6 +227,35 @@ def run(ctx):
     for f in sorted(verdicts[i] & PROP):
       ctx.violation(WHAT[f], dict(name=rec['text'][0], whisper_path=rec['text'][1], ceres_node=rec['text'][2],
                                   tag_hash_filenames=bool(rec['hash'])), signature=f)
+  concurrent_paths(ctx, database, settings, root)
+  # names the pickle listener can deliver but UTF-8 cannot encode (lone surrogates): the path functions may
+  # refuse them (nothing is created), but a path they do return must still lie inside the data directory
+  sur = ['a;t=\udc80/../../../../../x', '\udc80/../../x', 'a.b;x=\ud800;y=/../../../etc', '../\udfff;k=v/../../..', 'x\udc80y',
+         ';\udc80=../..', 'a;\udc80=1;b=/../../../../..//tmp/x']
+  for _ in range(ctx.pick(100, 1000)):
+    sur.append(''.join(rng.choice(['..', '/', '../', ';', '=', 'a', '\udc80', '\ud800', '.', '~']) for _ in range(rng.randint(2, 14))))
+  nrefused = 0
+  for hash_only in (False, True):
+    settings['TAG_HASH_FILENAMES'] = hash_only
+    wdb = database.WhisperDatabase(settings)
+    cdb = database.CeresDatabase(settings)
+    for name in sur:
+      ctx.evaluations += 1
+      for what, fn in (('Whisper file path', lambda: wdb.getFilesystemPath(name)),):
+        try:
+          path = fn()
+        except (UnicodeError, ValueError):
+          nrefused += 1
+          continue
+        try:
+          target = os.path.realpath(os.path.normpath(path))
+        except (UnicodeError, ValueError):
+          nrefused += 1
+          continue
+        if not (target + os.sep).startswith(root + os.sep):
+          ctx.violation('the %s of a metric name containing a lone surrogate resolves outside the data directory' % what,
+                        dict(name=repr(name), path=repr(path), resolves_to=repr(target), tag_hash_filenames=hash_only), signature='escapes')
+  ctx.cov['surrogate_names_refused'] = nrefused
   ctx.sample(dict(kind='path case', name=recs[100]['text'][0], whisper_path=recs[100]['text'][1], ceres=recs[100]['text'][2]))
   import copy
   bad = copy.deepcopy(recs[50])
